@@ -74,8 +74,9 @@ class RecState(IState):
 
     def process_Ping(self, event):
         self._rec("P", event.uid, event)
-        self.last_ping = event.value
-        self.acc += event.value
+        if event.value == event.value:          # an all-NaN row of a custom-event table carries no value
+            self.last_ping = event.value
+            self.acc += event.value
 
     def process_EventReset(self, event):
         self._rec("RESET", None, event)
@@ -230,10 +231,18 @@ def build(case, make_env=True, stream_override=None):
                 stream.append((t, "QU", (ci, ui, mid * (1 - sp / 2), mid * (1 + sp / 2))))
     for gi, r in case.get("rates", []):
         stream.append((b.grid[gi % len(b.grid)], "RATE", r))
-    for i, (gi, off_us, val) in enumerate(case.get("pings", [])):
-        stream.append((b.grid[gi % len(b.grid)] + off_us, "P", (i, val)))
+    ping_rows = [(b.grid[gi % len(b.grid)] + off_us, "P", (i, val)) for i, (gi, off_us, val) in enumerate(case.get("pings", []))]
+    if not case.get("pings_via_frame"):
+        stream.extend(ping_rows)
     for (gi, off_us, values) in case.get("obs", []):
         stream.append((b.grid[gi % len(b.grid)] + off_us, "OBS", list(values)))
+    if case.get("pings_via_frame"):
+        # custom events loaded from a table (Transmitter.add_custom_events) are appended after everything else;
+        # the table may contain completely empty rows (payload NaN)
+        for k, row in enumerate(ping_rows):
+            stream.append(row)
+            if k in set(case.get("ping_nan_rows", [])):
+                stream.append((row[0] + case.get("ping_nan_shift_us", 0), "P", (float("nan"), float("nan"))))
     # events the environment adds by itself at construction (contract.make_events(): discontinuation at expiry);
     # they are not in the transmitter's input but take part in delivery, so the timing model must know them
     b.auto_events = []
@@ -260,6 +269,8 @@ def events_from_stream(b):
         elif kind == "RATE":
             events.append(EventNBBO(stamp(b.case, t), b.rate_contract, payload, payload))
         elif kind == "P":
+            if b.case.get("pings_via_frame"):
+                continue                    # delivered through add_custom_events, see frame_of_pings
             events.append(Ping(stamp(b.case, t), payload[0], payload[1]))
         elif kind == "DISC":
             events.append(EventContractDiscontinued(stamp(b.case, t), b.contracts[payload]))
@@ -268,6 +279,14 @@ def events_from_stream(b):
         else:
             raise ValueError(kind)
     return events
+
+
+def frame_of_pings(b):
+    rows = [(t, payload) for (t, kind, payload) in b.stream if kind == "P"]
+    if not rows:
+        return None
+    return pd.DataFrame({"uid": [p[0] for _, p in rows], "value": [p[1] for _, p in rows]},
+                        index=pd.DatetimeIndex([dt(t) for t, _ in rows]))
 
 
 def space_contracts(b):
@@ -301,6 +320,10 @@ def make_env_from(b):
                      markov_reset=case.get("markov", False),
                      warmup=timedelta(microseconds=case["warmup_us"]) if case.get("warmup_us") else None)
     tr.add_events(events_from_stream(b))
+    if case.get("pings_via_frame"):
+        frame = frame_of_pings(b)
+        if frame is not None:
+            tr.add_custom_events(frame, Ping)
     fixed, prop = case.get("fees", [0.0, 0.0])
     fees = BrokerFees(markup=case.get("markup", 0.0), interest_rate=b.rate_contract, proportional=prop, fixed=fixed)
     if case.get("pre_env_latency_us") is not None:
